@@ -8,8 +8,10 @@ import (
 	"io"
 	"os"
 	"os/exec"
+	"sort"
 	"strconv"
 	"strings"
+	"sync/atomic"
 	"time"
 )
 
@@ -17,6 +19,7 @@ type SolverStats struct {
 	Queries, Sat, Unsat, Unknown int
 	Time                         time.Duration
 	Restarts                     int
+	Fallbacks                    int
 }
 
 type Solver struct {
@@ -32,6 +35,7 @@ type Solver struct {
 	logw    io.Writer
 	dead    bool
 	lastErr string
+	noModel bool
 }
 
 func solverArgv(kind string, timeoutMs int) []string {
@@ -56,7 +60,11 @@ func NewSolver(kind string, tt *Terms, timeoutMs int, logw io.Writer) (*Solver, 
 }
 
 func (s *Solver) start() error {
-	argv := solverArgv(s.kind, s.timeout)
+	inc := s.timeout
+	if inc > 5000 {
+		inc = 5000 // incremental attempts are cut short; the from-scratch fallback gets the full budget
+	}
+	argv := solverArgv(s.kind, inc)
 	cmd := exec.Command(argv[0], argv[1:]...)
 	in, err := cmd.StdinPipe()
 	if err != nil {
@@ -218,6 +226,7 @@ func (s *Solver) Sync(pc []*Term) {
 // Check returns "sat", "unsat" or "unknown" for the conjunction pc.
 func (s *Solver) Check(pc []*Term) string {
 	t0 := time.Now()
+	s.noModel = false
 	s.Sync(pc)
 	s.send("(check-sat)")
 	r := s.readLine()
@@ -229,8 +238,24 @@ func (s *Solver) Check(pc []*Term) string {
 	case "unsat":
 		s.Stats.Unsat++
 	default:
+		// incremental mode gave up: retry the whole conjunction from scratch on fresh solvers
+		if fr := s.fallback(); fr == "sat" || fr == "unsat" {
+			s.Stats.Fallbacks++
+			if r != "unknown" {
+				s.restart()
+			}
+			if fr == "sat" {
+				s.Stats.Sat++
+				// leave the incremental solver without a model: callers needing values re-check
+			} else {
+				s.Stats.Unsat++
+			}
+			s.noModel = fr == "sat"
+			return fr
+		}
 		s.Stats.Unknown++
 		s.lastErr = r
+		s.dumpStack(r)
 		if r != "unknown" {
 			// (error ...) or timeout text: treat as unknown, restart to resynchronise
 			s.restart()
@@ -244,6 +269,9 @@ func (s *Solver) Check(pc []*Term) string {
 func (s *Solver) Values(ts []*Term) ([]*Term, error) {
 	if len(ts) == 0 {
 		return nil, nil
+	}
+	if s.noModel {
+		return nil, fmt.Errorf("no model (answer came from the fallback solver)")
 	}
 	res := make([]*Term, len(ts))
 	for i, t := range ts {
@@ -433,4 +461,104 @@ func tokenizeSexp(s string) (interface{}, error) {
 		return s[st:pos], nil
 	}
 	return parse()
+}
+
+// Model returns values for all currently declared variables (after a sat Check).
+func (s *Solver) Model() (map[*Term]*Term, error) {
+	if s.noModel {
+		return nil, fmt.Errorf("no model (answer came from the fallback solver)")
+	}
+	names := make([]string, 0, len(s.declLvl))
+	for n := range s.declLvl {
+		names = append(names, n)
+	}
+	if len(names) == 0 {
+		return map[*Term]*Term{}, nil
+	}
+	sort.Strings(names)
+	var sb strings.Builder
+	sb.WriteString("(get-value (")
+	vars := make([]*Term, len(names))
+	for i, n := range names {
+		v := s.tt.tab["v"+n]
+		vars[i] = v
+		sb.WriteString(v.SMT())
+		sb.WriteByte(' ')
+	}
+	sb.WriteString("))")
+	s.send(sb.String())
+	sx := s.readSexp()
+	tree, err := tokenizeSexp(strings.TrimSpace(sx))
+	if err != nil {
+		return nil, err
+	}
+	lst, ok := tree.([]interface{})
+	if !ok || len(lst) != len(vars) {
+		return nil, fmt.Errorf("model: unexpected shape %q", sx)
+	}
+	m := make(map[*Term]*Term, len(vars))
+	for i, it := range lst {
+		pair, ok := it.([]interface{})
+		if !ok || len(pair) != 2 {
+			return nil, fmt.Errorf("model: bad pair")
+		}
+		v, err := valueFromSexp(s.tt, pair[1], vars[i].Sort)
+		if err != nil {
+			return nil, err
+		}
+		m[vars[i]] = v
+	}
+	return m, nil
+}
+
+var unknownDumpN int32
+
+func (s *Solver) dumpStack(res string) {
+	n := atomic.AddInt32(&unknownDumpN, 1)
+	if n > 20 {
+		return
+	}
+	os.MkdirAll("/verif/.work", 0o755)
+	os.WriteFile(fmt.Sprintf("/verif/.work/unknown-%d-%d.smt2", os.Getpid(), n), []byte(s.script(res)), 0o644)
+}
+
+// fallback solves the current stack non-incrementally with cvc5 and then z3-new.
+func (s *Solver) fallback() string {
+	script := s.script("fallback")
+	for _, argv := range [][]string{
+		{"cvc5", "--lang", "smt2", "--strings-exp", "-q", "--tlimit=" + strconv.Itoa(s.timeout)},
+		{"z3-new", "-in", "-T:" + strconv.Itoa(s.timeout/1000+1)},
+	} {
+		cmd := exec.Command(argv[0], argv[1:]...)
+		cmd.Stdin = strings.NewReader(script)
+		out, _ := cmd.Output()
+		for _, l := range strings.Split(string(out), "\n") {
+			l = strings.TrimSpace(l)
+			if l == "sat" || l == "unsat" {
+				return l
+			}
+		}
+	}
+	return "unknown"
+}
+
+func (s *Solver) script(res string) string {
+	var sb strings.Builder
+	sb.WriteString("; result: " + res + "\n(set-logic ALL)\n")
+	seen := map[*Term]bool{}
+	var vs []*Term
+	for _, t := range s.stack {
+		t.Vars(seen, &vs)
+	}
+	for _, v := range vs {
+		sb.WriteString(fmt.Sprintf("(declare-const |%s| %s)\n", v.S, v.Sort.SMT()))
+		if ax, ok := s.tt.VarAxioms[v.S]; ok {
+			sb.WriteString("(assert " + ax.SMT() + ")\n")
+		}
+	}
+	for _, t := range s.stack {
+		sb.WriteString("(assert " + t.SMT() + ")\n")
+	}
+	sb.WriteString("(check-sat)\n")
+	return sb.String()
 }
